@@ -124,6 +124,14 @@ def run(ctx, prop):
             {"k": "interface", "name": "ITypesBase", "base": None, "members": [
                 {"k": "error", "name": "T_FAIL"},
                 {"k": "method", "name": "version", "optional": False, "doc": None, "params": [_pp("out", "uint32", "v")]}]}]}]}))
+    # float constants written without a fraction, negative ones included (C and C++ float
+    # constants are a listed finding, so this case is compiled for Rust only)
+    work.append(("gen", {"id": "C11-whole-float-consts", "main": "main.idl", "incdirs": [], "no_java": True, "langs": ["rust"], "files": [{"path": "main.idl", "nodes": [
+        {"k": "const", "type": "float64", "name": "OFFSET", "value": "-3"}, {"k": "const", "type": "float32", "name": "GAIN", "value": "7"},
+        {"k": "const", "type": "float32", "name": "NEG", "value": "-10"}, {"k": "const", "type": "float64", "name": "ZEROF", "value": "0"},
+        {"k": "interface", "name": "IConstsF", "base": None, "members": [
+            {"k": "const", "type": "float64", "name": "BIAS", "value": "-10"}, {"k": "const", "type": "float32", "name": "HALF", "value": "-0.5"},
+            {"k": "method", "name": "m", "optional": False, "doc": None, "params": []}]}]}]}))
     def no_int64_min(case):
         """the most negative int64 literal does not compile warning-clean in C/C++ (known finding
         K11-int64MinConst, re-confirmed by its witness on every run): generated cases use the
